@@ -81,17 +81,17 @@ def rename_updates_ranges(new: str) -> bool:
         return done(True, False)
     root = Element.from_tag(
         "<office:document-content><office:body><office:spreadsheet>"
-        "<table:table table:name='t1'/><table:table table:name='zz'/><table:named-expressions/>"
+        "<table:table table:name='t1'/><table:table table:name='t'/><table:named-expressions/>"
         "</office:spreadsheet></office:body></office:document-content>")
     body = root.get_element("office:body/office:spreadsheet")
     exprs = body.get_element("table:named-expressions")
     exprs._Element__element.append(NamedRange("rng_a", (0, 0, 1, 1), "t1")._Element__element)
-    exprs._Element__element.append(NamedRange("rng_b", (1, 1, 2, 2), "zz")._Element__element)
+    exprs._Element__element.append(NamedRange("rng_b", (1, 1, 2, 2), "t")._Element__element)  # (a table whose name is a substring of the renamed one)
     table = body.get_elements("table:table")[0]
     table.name = new
     r1 = body.get_named_range("rng_a")
     r2 = body.get_named_range("rng_b")
-    ok = table.name == new2 and r1.table_name == new2 and r1.crange == (0, 0, 1, 1) and r2.table_name == "zz" and r2.crange == (1, 1, 2, 2)
+    ok = table.name == new2 and r1.table_name == new2 and r1.crange == (0, 0, 1, 1) and r2.table_name == "t" and r2.crange == (1, 1, 2, 2)
     found = table.get_named_ranges(table_name=new2)
     return done(ok and len(found) == 1 and found[0].name == "rng_a")
 
